@@ -18,7 +18,7 @@ use value::Flags;
 fn main() {
     let ctx = Ctx::from_args();
     install_panic_hook();
-    watchdog_start(60);
+    watchdog_start(if ctx.tier.thorough() { 240 } else { 60 });
     if let Some(p) = &ctx.replay {
         let Ok(s) = std::fs::read_to_string(p) else {
             println!("MACHINERY-FAILURE: cannot read {}", p.display());
